@@ -89,3 +89,55 @@ def gen_count_cfg(rng: random.Random, case: Case, rules=("greedy",), p=0.7, **kw
         if cfg["rule"] == "greedy":
             cfg["additive"] = rng.choice([None, False]) if cfg["sat"] == "CC_Sat" else rng.choice([None, True, False])
     return cfg
+
+
+# ----------------------------------------------------------------------------------------------
+# opt-in (round 4): calls that hand over their own satisfaction profile
+
+# classes that may be NAMED as sat_class next to a caller-supplied satisfaction profile: the documentation says the class is
+# then disregarded, so it only has to be a class a caller could plausibly name for that kind of ballot
+SAT_CLASS_NAMES = {
+    "app": core.SAT_BY_TYPE["app"] + ["CC_Sat"],
+    "card": ["Additive_Cardinal_Sat", "CC_Sat", "Cardinality_Sat", "Cost_Sat"],
+    "cum": ["Additive_Cardinal_Sat", "CC_Sat", "Cardinality_Sat", "Cost_Sat"],
+    "ord": ["Additive_Borda_Sat", "Cardinality_Sat", "Cost_Sat"],
+}
+SP_MODES = ["only", "other-measure", "sub-electorate", "empty"]
+
+
+def gen_satprofile_cfg(rng: random.Random, case: Case, rule, modes=SP_MODES, **kw):
+    """configuration of a call with `sat_profile=`: the measure gen_rule_cfg drew becomes the measure of the satisfaction
+    profile (cfg["sp_sat"]); the mode says what else the caller passes
+      only            no sat_class at all
+      other-measure   sat_class = another class than the one the satisfaction profile was built with
+      sub-electorate  the satisfaction profile holds only some voters of the profile argument (sat_class: any class)
+      empty           the satisfaction profile holds no voter at all (an empty collection is falsy), sat_class: any class
+    In every mode the documented precedence makes the call a statement about the satisfaction profile alone."""
+    from . import rules as _rules
+
+    cfg = gen_rule_cfg(rng, case, rules=(rule,), **kw)
+    mode = rng.choice(list(modes))
+    measure = cfg["sat"]
+    cfg["sp_sat"] = measure
+    cfg["sp_mode"] = mode
+    n = len(case.ballots)
+    if mode == "only":
+        cfg["sp_only"] = True
+    else:
+        names = SAT_CLASS_NAMES[case.btype]
+        others = [s for s in names if s != measure]
+        if mode == "other-measure":
+            cfg["sat"] = rng.choice(others) if others else measure
+        else:
+            cfg["sat"] = rng.choice(names)
+            cfg["sp_voters"] = [] if mode == "empty" else sorted(rng.sample(range(n), rng.randint(0, max(0, n - 1))))
+    if rule == "greedy":
+        # the additivity flag describes the satisfaction profile.  Left to None it is deduced from sat_class when one is
+        # given ("directly deducted if sat_class is provided") and means the general path otherwise: None is only drawn
+        # when that deduction cannot put a non-additive measure on the additive fast path
+        add_ok = measure in _rules.ADDITIVE_SATS
+        flags = [False, None] + ([True] if add_ok else [])
+        cfg["additive"] = rng.choice(flags)
+        if cfg["additive"] is None and not cfg.get("sp_only") and cfg["sat"] in _rules.ADDITIVE_CLASS_SATS and not add_ok:
+            cfg["additive"] = False
+    return cfg
